@@ -114,6 +114,7 @@ func TestVerif_C01_ServerCanaries(t *testing.T) {
 	rec := verifx.NewRecorder("C01", "server-canaries", "rapid state machine over the public API of a real core on a recording physical backend with kv-v1, kv-v2, cubbyhole, userpass and a child namespace: every value position the workload controls (secret data, policy text, token metadata and display names, entity metadata, mount descriptions, userpass passwords, wrapped responses) carries a fresh high-entropy canary; also sys/rotate, sys/rotate/root, seal/unseal; after every step every physical put since the previous step must (1) contain no canary in clear, base64 or hex and (2) either have a key from the fixed bootstrap allow-list or decrypt with the barrier under exactly that key; non-trivial = the step wrote at least one encrypted record containing a canary")
 	defer rec.Flush()
 	rapid.Check(t, func(rt *rapid.T) {
+		defer recoverWedged(rec)
 		tc := mustBoot(t, coreOpts{transactional: rapid.Bool().Draw(rt, "transactionalStorage"),
 			logical:    map[string]logical.Factory{"kv": logicalKv.Factory},
 			credential: map[string]logical.Factory{"userpass": credUserpass.Factory}})
